@@ -53,6 +53,10 @@ def fd_function(name):
         def J(x):
             return np.array([[1.0, 40 * np.cos(40 * x[1])], [1e-4, -25 * np.sin(25 * x[1])], [1e-4 * x[1], 1e-4 * x[0]]])
         return f, J, (2,), False
+    if name == "even2":
+        # even in its first argument: at x0 = 0 every central difference is exact (the refinement loop is done at once); everywhere else it is not
+        return ((lambda x: np.array([np.cos(3.0 * x[0]) + x[1], x[0] * x[1]])),
+                (lambda x: np.array([[-3.0 * np.sin(3.0 * x[0]), 1.0], [x[1], x[0]]])), (2,), False)
     if name in ("pend2", "chain3"):
         # second-order equations written as first-order systems: structural zeros and constant entries beside ONE nonlinear entry whose truncation error takes
         # either sign along the lattice of evaluation points (a refinement loop that looks at a signed or a mixed quantity stops early on one of the signs)
@@ -105,9 +109,12 @@ def fd_case(case):
         pts = list(itertools.product([0.0, 0.3, 5.0, 4096.0, 1e4], [0.3, 0.75, -0.6]))       # the steep argument stays O(1); its neighbour takes every size
     if case["fn"] in ("pend2", "chain3"):
         pts = [(-1.5 + 0.125 * k, v) for k in range(25) for v in (0.3, -2.0)]          # the nonlinear argument along a lattice of 25 points
+    if case["fn"] == "even2":
+        pts = [(0.0, 0.3), (0.4, 0.3), (0.0, -2.0), (-1.1, 0.7), (0.0, 0.3), (0.9, -0.5)]     # the easy point first, then generic ones
+    shared = None
     for pv in pts:
         vals = [pv[i % len(pv)] * (1 if i % 3 else -1) * (1 + 0.125 * (i // 2)) for i in range(n)]
-        if case["fn"] in ("pend2", "chain3"):
+        if case["fn"] in ("pend2", "chain3", "even2"):
             vals = [pv[0]] + [pv[1] * (1 + 0.5 * i) for i in range(n - 1)]
         x = np.array(vals, dtype=np.float64).reshape(shape) if shape else np.float64(vals[0])
         kw = dict(base_order=case["order"], flat=case["flat"])
@@ -117,12 +124,21 @@ def fd_case(case):
             kw.update(adaptive=False)         # fixed number of Richardson refinements, per-component choice of the differencing step
             if case.get("riter") is not None:
                 kw.update(richardson_iter=case["riter"])
-        jw = U.JacobianWrapper(f, **kw)
+        if case.get("reuse"):
+            # ONE wrapper object answers every point of the case, in this order: what it learnt at an earlier point (the depth at which the refinement
+            # converged there) is not a setting for the next one
+            if shared is None:
+                shared = U.JacobianWrapper(f, **kw)
+            jw = shared
+        else:
+            jw = U.JacobianWrapper(f, **kw)
         got = np.asarray(jw(x))
         want = np.asarray(J(x))
         fshape = np.shape(f(x))
         r.n += 1
         cs = dict(section="fd", fn=case["fn"], order=case["order"], flat=case["flat"], tol=case["tol"], x=np.asarray(x, dtype=float).reshape(-1))
+        if case.get("reuse"):
+            cs["reuse"] = True
         if not adaptive:
             cs["adaptive"] = False
             cs["riter"] = case.get("riter")
@@ -321,6 +337,8 @@ def run(ctx):
     if not ctx.only or "fd" in ctx.only:
         cases = [dict(fn=fn, order=o, flat=fl, tol=tol) for fn in ("linear32", "linear_matrix", "scalar_tanh", "smooth23", "steep23", "smooth_matrix", "pend2", "chain3")
                  for o in (2, 3, 5, 7) for fl in (False, True) for tol in ((1e-8,) if ctx.quick else (1e-6, 1e-8, 1e-10))]
+        cases += [dict(fn=fn, order=o, flat=fl, tol=tol, reuse=True) for fn in ("even2", "smooth23", "pend2", "scalar_tanh") for o in (2, 3, 5) for fl in (False, True) for tol in (1e-8, 1e-10)]
+        cases += [dict(fn="even2", order=o, flat=False, tol=1e-8) for o in (2, 3, 5, 7)]
         cases += [dict(fn=fn, order=o, flat=fl, tol=1e-8, adaptive=False) for fn in ("linear32", "linear_matrix", "smooth23", "steep23", "smooth_matrix") for o in (2, 3, 5) for fl in (False, True)]
         grid.pmap(fd_case, cases, ctx, section="fd", horizon=600, chunksize=1)
     if not ctx.only or "rhs" in ctx.only:
@@ -331,6 +349,6 @@ def run(ctx):
 
 def replay(case):
     if case.get("section") == "fd":
-        return fd_case(dict(fn=case["fn"], order=case["order"], flat=case["flat"], tol=case["tol"]))
-    cfg = dict(attr=case["attr"])
+        return fd_case({k: case[k] for k in ("fn", "order", "flat", "tol", "reuse", "adaptive", "riter") if k in case})
+    cfg = {k: case[k] for k in ("attr", "column") if k in case}
     return step16(cfg, tuple(tuple(o) for o in case["hist"]))
